@@ -410,7 +410,8 @@ def topological_symmetry_number(graph: StereoMolGraph) -> int:
             " to calculate the symmetry number"
         )
     colorings = color_refine_smg(graph)
+    labels = {a: int(c) for a, c in zip(graph.atoms, colorings)}
     mappings = vf2pp_all_isomorphisms(
-        graph, graph, atom_labels=(colorings, colorings), stereo=True
+        graph, graph, atom_labels=(labels, labels), stereo=True
     )
     return deque(enumerate(mappings, 1), maxlen=1)[0][0]
